@@ -112,6 +112,8 @@ func runGeneric(r *Report, prop string) {
 		fn := r.P.FuncName(f)
 		runReadBufferRetained(r, g(8), f)
 		runWriteAfterSave(r, g(10), f)
+		runPooledObjectEscapes(r, g(11), f)
+		runErrorSwallowed(r, g(12), f)
 		// G9: every read->write copy loop of the anchored code (discovered by shape: a Read in a loop
 		// whose buffer is handed to a Write in the same loop) keeps the copy-loop obligations
 		Instrs(f, func(in ssa.Instruction) {
@@ -865,4 +867,244 @@ func runWriteAfterSave(r *Report, rule string, f *ssa.Function) {
 			r.Ob(rule, st.Pos(), again, fmt.Sprintf("%s is assigned after the record was handed to %s and the record is not persisted again: the stored copy lacks the assignment", fieldDesc(fa.X.Type(), fa.Field), CalleeOf(p.c).Name), fn, "write-after-save:"+fieldDesc(fa.X.Type(), fa.Field))
 		})
 	}
+}
+
+// ---------------------------------------------------------------------------
+// G11 a pooled object is not given back while a goroutine started here still holds it: an object
+// obtained from a sync.Pool (directly or through a same-package getter that returns Pool.Get()),
+// handed to a `go` statement, and returned to the pool by this function (Put, also deferred, also
+// through a same-package release helper) can be re-issued to another caller while the goroutine is
+// still using it.
+
+func poolGets(f *ssa.Function) []ssa.Value {
+	var out []ssa.Value
+	Instrs(f, func(in ssa.Instruction) {
+		c, ok := in.(*ssa.Call)
+		if !ok {
+			return
+		}
+		if CalleeOf(c).Is("sync:Pool.Get") {
+			out = append(out, c)
+			return
+		}
+		if h := c.Common().StaticCallee(); h != nil && h.Pkg == f.Pkg && len(h.Blocks) > 0 && len(Calls(h, false, "sync:Pool.Get")) > 0 {
+			for _, ret := range Returns(h) {
+				for i := range ret.Results {
+					if cc, _ := CallOfValue(RetVal(ret, i)); cc != nil && CalleeOf(cc).Is("sync:Pool.Get") {
+						out = append(out, c)
+						return
+					}
+				}
+			}
+		}
+	})
+	return out
+}
+
+func runPooledObjectEscapes(r *Report, rule string, f *ssa.Function) {
+	fn := r.P.FuncName(f)
+	roots := poolGets(f)
+	// a parameter this function gives back to a pool (directly or through a release helper) is a
+	// pooled object as well
+	Instrs(f, func(in ssa.Instruction) {
+		ci, ok := in.(ssa.CallInstruction)
+		if !ok {
+			return
+		}
+		puts := CalleeOf(ci).Is("sync:Pool.Put")
+		if h := ci.Common().StaticCallee(); !puts && h != nil && h.Pkg == f.Pkg && len(h.Blocks) > 0 && len(Calls(h, false, "sync:Pool.Put")) > 0 {
+			puts = true
+		}
+		if !puts {
+			return
+		}
+		for _, a := range ci.Common().Args {
+			av := stripValue(a)
+			// a parameter spilled to a cell because a closure captures it
+			if u, ok := av.(*ssa.UnOp); ok && u.Op == token.MUL {
+				if al, ok := u.X.(*ssa.Alloc); ok {
+					for _, st := range storesTo(al) {
+						if pp, ok := st.Val.(*ssa.Parameter); ok {
+							av = pp
+						}
+					}
+				}
+			}
+			if p, isP := av.(*ssa.Parameter); isP && p.Parent() == f {
+				dup := false
+				for _, x := range roots {
+					if x == ssa.Value(p) {
+						dup = true
+					}
+				}
+				if !dup {
+					roots = append(roots, p)
+				}
+			}
+		}
+	})
+	for _, g := range roots {
+		// values derived from the pooled object (type assertions, conversions, loads of a cell it was stored in)
+		derived := map[ssa.Value]bool{g: true}
+		for round := 0; round < 4; round++ {
+			Instrs(f, func(in ssa.Instruction) {
+				switch x := in.(type) {
+				case *ssa.TypeAssert:
+					if derived[x.X] {
+						derived[x] = true
+					}
+				case *ssa.Extract:
+					if derived[x.Tuple] {
+						derived[x] = true
+					}
+				case *ssa.ChangeType:
+					if derived[x.X] {
+						derived[x] = true
+					}
+				case *ssa.MakeInterface:
+					if derived[x.X] {
+						derived[x] = true
+					}
+				case *ssa.Store:
+					if derived[x.Val] {
+						if al, ok := x.Addr.(*ssa.Alloc); ok {
+							derived[al] = true
+						}
+					}
+				case *ssa.UnOp:
+					if x.Op == token.MUL && derived[x.X] {
+						derived[x] = true
+					}
+				}
+			})
+		}
+		isPut := func(ci ssa.CallInstruction) bool {
+			if CalleeOf(ci).Is("sync:Pool.Put") {
+				for _, a := range ci.Common().Args {
+					if derived[a] {
+						return true
+					}
+				}
+				return false
+			}
+			if h := ci.Common().StaticCallee(); h != nil && h.Pkg == f.Pkg && len(h.Blocks) > 0 && len(Calls(h, false, "sync:Pool.Put")) > 0 {
+				for _, a := range ci.Common().Args {
+					if derived[a] {
+						return true
+					}
+				}
+			}
+			return false
+		}
+		given := false
+		Instrs(f, func(in ssa.Instruction) {
+			if ci, ok := in.(ssa.CallInstruction); ok && isPut(ci) {
+				given = true
+			}
+		})
+		if !given {
+			continue
+		}
+		bad := token.NoPos
+		Instrs(f, func(in ssa.Instruction) {
+			gs, ok := in.(*ssa.Go)
+			if !ok {
+				return
+			}
+			for _, a := range gs.Call.Args {
+				if derived[a] {
+					bad = gs.Pos()
+				}
+			}
+			if mc, ok := gs.Call.Value.(*ssa.MakeClosure); ok {
+				for _, b := range mc.Bindings {
+					if derived[b] {
+						bad = gs.Pos()
+					}
+				}
+			}
+		})
+		pos := g.Pos()
+		if bad != token.NoPos {
+			pos = bad
+		}
+		r.Ob(rule, pos, bad == token.NoPos, "an object taken from a pool and given back by this function is not handed to a goroutine started here (the goroutine may outlive the function - e.g. on a timeout path - and then works on an object the pool has re-issued to another caller)", fn, "pooled-object-not-shared-with-goroutine")
+	}
+}
+
+// ---------------------------------------------------------------------------
+// G12 an error that was just found non-nil is not reset to nil after being only logged:
+// `if err != nil { log(err); err = nil }` turns a failure into a success for everything that
+// follows (a sentinel test such as `err == ErrKeyNotFound` is a different matter and is not touched).
+
+func runErrorSwallowed(r *Report, rule string, f *ssa.Function) {
+	fn := r.P.FuncName(f)
+	Instrs(f, func(in ssa.Instruction) {
+		ph, ok := in.(*ssa.Phi)
+		if !ok || ph.Type().String() != "error" {
+			return
+		}
+		for i, e := range ph.Edges {
+			if !isNil(e) {
+				continue
+			}
+			pred := ph.Block().Preds[i]
+			// the variable's previous value: another edge of this phi
+			for j, o := range ph.Edges {
+				if j == i || isNil(o) {
+					continue
+				}
+				known := false
+				for _, ft := range Facts(pred) {
+					if x, isnil, ok := ft.FactNil(); ok && !isnil && (x == o || stripValue(x) == stripValue(o)) {
+						known = true
+					}
+				}
+				if !known {
+					continue
+				}
+				// used for anything but logging on the way? (wrapped, appended, returned, compared with a sentinel)
+				used := false
+				if o.Referrers() != nil {
+					for _, ref := range *o.Referrers() {
+						ri, ok := ref.(ssa.Instruction)
+						if !ok || ri.Block() == nil || !(ri.Block() == pred || pred.Dominates(ri.Block()) || ri.Block().Dominates(pred)) {
+							continue
+						}
+						switch x := ref.(type) {
+						case *ssa.Return, *ssa.Store, *ssa.Send:
+							used = true
+						case *ssa.BinOp:
+							if !isNil(x.X) && !isNil(x.Y) {
+								used = true // compared with a sentinel: a deliberate classification
+							}
+						case ssa.CallInstruction:
+							c := CalleeOf(x)
+							if !strings.Contains(c.Pkg, "log") && !strings.Contains(c.Pkg, "dispose") && c.Pkg != "fmt" {
+								used = true
+							}
+						case *ssa.MakeInterface:
+							if x.Referrers() != nil {
+								for _, r2 := range *x.Referrers() {
+									if ci, ok := r2.(ssa.CallInstruction); ok {
+										c := CalleeOf(ci)
+										if !strings.Contains(c.Pkg, "log") && !strings.Contains(c.Pkg, "dispose") && c.Pkg != "fmt" {
+											used = true
+										}
+									} else if _, isStore := r2.(*ssa.Store); !isStore {
+										used = true
+									}
+								}
+							}
+						case *ssa.Phi:
+							if x != ph {
+								used = true
+							}
+						}
+					}
+				}
+				r.Ob(rule, pred.Instrs[len(pred.Instrs)-1].Pos(), used, "an error just found non-nil is reset to nil after being at most logged: the failure is reported as success to everything that follows", fn, "error-not-swallowed")
+			}
+		}
+	})
 }
